@@ -13,6 +13,7 @@ type Term struct {
 	Val  *big.Int
 	Name string
 	str  string
+	nl   int8 // 0 unknown, 1 linear, 2 nonlinear
 }
 
 var E18 = new(big.Int).Exp(big.NewInt(10), big.NewInt(18), nil)
@@ -198,6 +199,10 @@ func Eval(t *Term, env map[string]*big.Int) (*big.Int, error) {
 		args[i] = v
 	}
 	switch t.Op {
+	case "be8":
+		p := new(big.Int).Lsh(big.NewInt(1), uint(8*(7-t.Val.Int64())))
+		q, _ := new(big.Int).DivMod(args[0], p, new(big.Int))
+		return q.Mod(q, big.NewInt(256)), nil
 	case "+":
 		return new(big.Int).Add(args[0], args[1]), nil
 	case "-":
@@ -267,6 +272,9 @@ func (t *Term) String() string {
 
 func (t *Term) render() string {
 	switch t.Op {
+	case "be8": // byte Val (0 = most significant) of the 8-byte big-endian encoding of Args[0]
+		p := new(big.Int).Lsh(big.NewInt(1), uint(8*(7-t.Val.Int64())))
+		return "(mod (div " + t.Args[0].String() + " " + p.String() + ") 256)"
 	case "const":
 		if t.Val.Sign() < 0 {
 			return "(- " + new(big.Int).Neg(t.Val).String() + ")"
@@ -289,3 +297,37 @@ func (t *Term) render() string {
 }
 
 var _ = fmt.Sprintf
+
+
+// Nonlinear reports whether t contains a product of two non-constant terms or
+// a division by a non-constant term.
+func (t *Term) Nonlinear() bool {
+	if t.nl != 0 {
+		return t.nl == 2
+	}
+	r := false
+	switch t.Op {
+	case "*":
+		if !t.Args[0].IsK() && !t.Args[1].IsK() {
+			r = true
+		}
+	case "div", "mod", "tdiv", "rhe", "cdiv":
+		if !t.Args[1].IsK() {
+			r = true
+		}
+	}
+	if !r {
+		for _, a := range t.Args {
+			if a.Nonlinear() {
+				r = true
+				break
+			}
+		}
+	}
+	if r {
+		t.nl = 2
+	} else {
+		t.nl = 1
+	}
+	return r
+}
